@@ -1019,7 +1019,7 @@ Definition exec_unstable (o : op) : M out :=
   | OEq other => b <- u_buf_eq val_eqb other;; ret (OutBool b)
   | OEqSlice form xs => b <- u_eq_form form val_eqb xs;; ret (OutBool b)
   | OPartialCmp other => r <- u_buf_partial_cmp val_cmp other;; ret (OutOrd r)
-  | OCmp other => r <- u_buf_cmp val_cmp other;; ret (OutOrd r)
+  | OCmp other => r <- u_buf_cmp val_ord other;; ret (OutOrd r)
   | OHash => u_buf_hash;; ret OutUnit
   | OWrite fam src => n <- u_fam_write fam src;; ret (OutZ n)
   | OFlush fam => fam_flush fam;; ret OutUnit
